@@ -13,6 +13,7 @@ import Kust.Sha256
 import Kust.Labels
 import Kust.Image
 import Kust.OpenApi
+import Kust.FieldSpec
 import Kust.Gen.FieldSpecs
 import Kust.Gen.Lists
 open Lean Kust
@@ -235,6 +236,23 @@ def runOpenApi (op : String) (a : Json) : Except String Json := do
     return Json.mkObj [("ok", Json.arr (go {} builds).toArray)]
   | _ => throw s!"unknown openapi op {op}"
 
+def runFieldSpec (op : String) (a : Json) : Except String Json := do
+  let ns := predOfJson (a.getObjValD "ns")
+  let g (k : String) : String := (a.getObjValD k).getStr?.toOption.getD ""
+  match op with
+  | "apply" =>
+    let doc ← nodeOfJson (a.getObjValD "doc")
+    let spec : Gen.FieldSpec := ⟨g "sgroup", g "sversion", g "skind", g "path", (a.getObjValD "create").getBool?.toOption.getD false⟩
+    let ck ← (a.getObjValD "createKind").getNat?
+    let cr : FieldSpec.Create := { kind := ck, tag := g "createTag" }
+    let setter : Node → Out Node :=
+      if g "setName" = "" then fun n => match Fns.scalarSetter ns (some (.scalar (g "setTag") (g "setValue") 0)) false n with
+        | .ok (n', _) => .ok n' | .err c => .err c | .panic c => .panic c
+      else fun n => match Fns.fieldSetter ns (g "setName") (some (.scalar (g "setTag") (g "setValue") 0)) false false n with
+        | .ok (n', _) => .ok n' | .err c => .err c | .panic c => .panic c
+    return outToJson nodeToJson (FieldSpec.apply ns setter spec cr (g "group") (g "version") (g "kind") doc)
+  | _ => throw s!"unknown fieldspec op {op}"
+
 def dispatch (comp : String) (args : Json) : Except String Json :=
   match comp.splitOn "." with
   | ["fns", op] => runFns op args
@@ -245,6 +263,7 @@ def dispatch (comp : String) (args : Json) : Except String Json :=
   | ["labels", op] => runLabels op args
   | ["image", op] => runImage op args
   | ["openapi", op] => runOpenApi op args
+  | ["fieldspec", op] => runFieldSpec op args
   | _ => throw s!"unknown component {comp}"
 
 partial def loop (hin hout : IO.FS.Stream) : IO Unit := do
